@@ -62,10 +62,28 @@ Judge ==
   /\ Report("N_alone", {j \in K : Cardinality({x \in {"nf", "em", "mi", "du", "nd", "vv"} :
                                      CASE x = "nf" -> R_NotFrame(C[j].f) [] x = "em" -> R_Empty(C[j].f) [] x = "mi" -> R_Missing(C[j].f)
                                        [] x = "du" -> R_Dup(C[j].f) [] x = "nd" -> R_NoDet(C[j].f) [] x = "vv" -> R_VV(C[j].f)}) = 1})
+(* ---- frames produced by utils.mocker.mock_layers (beyond the listed properties, implementation level) ---- *)
+(* heights are given by their dense rank inside the frame (-1 = NaN): only order matters here            *)
+MeasRows(rows, c, t) == {i \in 1..Len(rows) : rows[i].c = c /\ rows[i].t = t}
+MockWellFormed(m) ==
+  LET rows == m.rows  f == [obj |-> "df", missing |-> "none", extra |-> FALSE, variant |-> "plain", rows |-> rows] IN
+  /\ ~Rejects(f)                                                                    \* accepted by the screening
+  /\ \A i \in 1..Len(rows) : (rows[i].h = -1) <=> (rows[i].k = 0)                   \* a non-detection is a type 0 with NaN
+  /\ \A i \in 1..Len(rows) :                                                       \* hit types rank the hits of one measurement by height
+        LET M == MeasRows(rows, rows[i].c, rows[i].t) IN
+        rows[i].k # 0 => /\ {rows[j].k : j \in M} = 1..Cardinality(M)
+                         /\ \A j \in M : rows[j].k < rows[i].k => rows[j].h <= rows[i].h
+  /\ \A i \in 1..Len(rows) : rows[i].k = 0 => Cardinality(MeasRows(rows, rows[i].c, rows[i].t)) = 1
+  /\ Cardinality({rows[i].c : i \in 1..Len(rows)}) = m.nce
+  /\ \A c \in {rows[i].c : i \in 1..Len(rows)} : Cardinality({rows[i].t : i \in {j \in 1..Len(rows) : rows[j].c = c}}) = m.npts
+MockJudge ==
+  /\ Report("I_Mock_WellFormed", {j \in DOMAIN job.mocks : ~MockWellFormed(job.mocks[j])})
+  /\ Report("I_Mock_Reproducible", {j \in DOMAIN job.mocks : job.mocks[j].digest # job.mocks[j].digest2})
+  /\ Report("N_mocks", DOMAIN job.mocks)
 Export == JsonSerialize(IOEnv.OUT_DIR \o "/frames.json",
              SetToSeq(IF IOEnv.TIER = "quick" THEN Frames(2, {"plain", "mixedceilo", "floattype"}) \cup Frames(1, Variants)
                       ELSE Frames(3, {"plain"}) \cup Frames(2, Variants)))
 Init == job = (IF IOEnv.MODE = "export" THEN [cases |-> <<>>] ELSE JsonDeserialize(IOEnv.JOB_FILE)) /\ done = FALSE
-Next == ~done /\ done' = TRUE /\ job' = job /\ (IF IOEnv.MODE = "export" THEN Export ELSE Judge)
+Next == ~done /\ done' = TRUE /\ job' = job /\ (IF IOEnv.MODE = "export" THEN Export ELSE IF IOEnv.MODE = "mock" THEN MockJudge ELSE Judge)
 Spec == Init /\ [][Next]_<<job, done>>
 =============================================================================
